@@ -111,6 +111,12 @@ func C04Family() []string {
 			}
 		}
 	}
+	// an empty value and a tombstone side by side, in every format generation: "" is a value, null is a deletion
+	for _, ver := range []string{"0.8.2.0", "0.10.2.0", "0.11.0.0", "2.1.0"} {
+		for _, codec := range []string{"none", "gzip"} {
+			out = append(out, "prod?ver="+ver+"&codec="+codec+"&rm=1&nb=1&parts=0,0,0&emptyval=2&tomb=3&acks=1&fm=0&ff=100&policy=input&faults=notleader&gates="+Gates)
+		}
+	}
 	// headers under a message format that has no place for them: the message must be refused, not sent without them
 	for _, ver := range []string{"0.8.2.0", "0.10.0.0", "0.10.2.0"} {
 		out = append(out, "prod?ver="+ver+"&codec=none&kv=1&oldhdr=1&rm=1&nb=1&parts=0,0,0,0&acks=1&fm=0&ff=100&policy=input&faults=notleader&gates="+Gates)
@@ -203,6 +209,15 @@ func Scenarios(prop string) []gx.Sc {
 			q += "&closeany=1"
 		}
 		out = append(out, gx.Sc{Name: q + "&faults=codes&gates=" + Gates, Q: 1, T: 1})
+	}
+	if prop == "C01" || prop == "C12" || prop == "C18" {
+		// the application keeps its message values in a pool: a value that came back on Successes() or Errors() - after a
+		// retry, or as a failure - is filled in again and submitted as the next message
+		q := "prod?rm=1&nm=3&np=1&reuse=1"
+		if prop == "C18" {
+			q += "&icpt=2"
+		}
+		out = append(out, gx.Sc{Name: q + "&faults=notleader,fatal&gates=" + Gates, Q: 3, T: 3})
 	}
 	if prop == "C18" {
 		out = append(out, gx.Sc{Name: "prod?rm=1&nm=2&icpt=2&icptpanic=1&faults=" + Faults + "&gates=" + Gates, Q: 2, T: 3})
